@@ -1,9 +1,9 @@
 package main
 
 import (
-	"go/token"
 	"fmt"
 	"go/ast"
+	"go/token"
 	"go/types"
 	"sort"
 	"strings"
@@ -14,9 +14,11 @@ import (
 func init() { register("C17", runC17) }
 
 // remainderPattern checks the remainder-accumulator booking idiom in fn:
-//   R := T            (R initialised from the total)
-//   for … { sink(…, a); R = R.Sub(a) }   (every allotted amount is subtracted)
-//   pool.Add(R...)    (the remainder is booked)
+//
+//	R := T            (R initialised from the total)
+//	for … { sink(…, a); R = R.Sub(a) }   (every allotted amount is subtracted)
+//	pool.Add(R...)    (the remainder is booked)
+//
 // sinkNames are the callees that book an allotted amount (argument index given).
 func (v *FnView) remainderPattern(total types.Object, sinks map[string]int) (ok bool, problems []string) {
 	// R: a variable with a definition that is exactly `total`
